@@ -23,33 +23,42 @@ type BubbleResult struct {
 // 2000-01-01T00:00:00Z, advancing only at quiescence) and turns the two
 // deadlock panics of the bubble into a result instead of a crash.
 func Bubble(t *testing.T, f func()) (res BubbleResult) {
-	defer func() {
-		if r := recover(); r != nil {
-			s := fmt.Sprint(r)
-			switch {
-			case strings.Contains(s, "all goroutines in bubble are blocked"):
-				res.Deadlock = true
-				res.Stacks = AllStacks()
-			case strings.Contains(s, "blocked goroutines remain"):
-				res.Leftover = true
-				res.Stacks = AllStacks()
-			default:
-				res.Panic = r
-				res.PanicText = s
-			}
-		}
-	}()
-	synctest.Test(t, func(t *testing.T) {
+	// synctest.Test calls t.FailNow (runtime.Goexit) when the bubble's *T
+	// failed, which the testing package also arranges when the race detector
+	// reported something during the bubble. The worker must survive that, so
+	// the bubble is started from a goroutine of its own.
+	done := make(chan struct{})
+	go func() {
+		defer close(done)
 		defer func() {
 			if r := recover(); r != nil {
-				buf := make([]byte, 1<<16)
-				buf = buf[:runtime.Stack(buf, false)]
-				res.Panic = r
-				res.PanicText = fmt.Sprintf("%v\n%s", r, buf)
+				s := fmt.Sprint(r)
+				switch {
+				case strings.Contains(s, "all goroutines in bubble are blocked"):
+					res.Deadlock = true
+					res.Stacks = AllStacks()
+				case strings.Contains(s, "blocked goroutines remain"):
+					res.Leftover = true
+					res.Stacks = AllStacks()
+				default:
+					res.Panic = r
+					res.PanicText = s
+				}
 			}
 		}()
-		f()
-	})
+		synctest.Test(t, func(t *testing.T) {
+			defer func() {
+				if r := recover(); r != nil {
+					buf := make([]byte, 1<<16)
+					buf = buf[:runtime.Stack(buf, false)]
+					res.Panic = r
+					res.PanicText = fmt.Sprintf("%v\n%s", r, buf)
+				}
+			}()
+			f()
+		})
+	}()
+	<-done
 	return res
 }
 
